@@ -447,7 +447,8 @@ pub fn append(s: &mut Subst, args: &[T]) -> Result<bool, String> {
         let v = s.walk(a);
         match &v {
             T::Var(..) => return Err("append with an unbound input".into()),
-            T::Anon => return Err("append with a wildcard input".into()),
+            // `$_` is a non-list argument: it is an element of the result like any other
+            T::Anon => elems.push(T::Anon),
             T::Func(..) => return Err("append with a function input".into()),
             T::List(..) => elems.extend(list_elements(s, &v)?),
             _ => elems.push(v.clone()),
